@@ -168,6 +168,7 @@ type NodeSpec struct {
 	WaitNs  int       `json:"wait_ns,omitempty"` // additional nanoseconds of retry wait (tiny, non-zero waits)
 	LoopN   int       `json:"loop_n,omitempty"`  // > 0: the node returns action "loop" on its first LoopN visits and "exit" afterwards (Visits is ignored): long cycles
 	Conc    int       `json:"conc,omitempty"`    // > 0: a batch concurrency (and stop-on-error) is configured on this NON-batch node: must change nothing
+	PrepSetsN bool    `json:"prep_sets_n,omitempty"` // the node is built with ANOTHER budget and its own prep sets N (builder method / option on its BaseNode / own field): the setting in force when the attempts start is the budget
 	Visits  []Visit   `json:"visits,omitempty"`  // script per visit; beyond the script the node succeeds at once and returns EndAction
 	Flow    *FlowSpec `json:"flow,omitempty"`
 }
@@ -624,8 +625,35 @@ func (c *core) prep(ctx context.Context, shared *flyt.SharedStore) (any, error) 
 		c.x.setRet(seq, errID(c.id, v, "prep", 0))
 		return nil, c.x.mkErr(c.spec.ErrKind, errID(c.id, v, "prep", 0))
 	}
+	if c.spec.PrepSetsN {
+		c.x.setBudget(c.id, c.spec.N)
+	}
 	c.curPrep = c.mkPayload("prep", 0)
 	return c.curPrep, nil
+}
+
+// setBudget re-configures the retry budget of a node from inside its own prep (the last setting before the attempts).
+func (x *Exec) setBudget(id, n int) {
+	switch nd := x.nodes[id].(type) {
+	case *baseNode:
+		flyt.WithMaxRetries(n)(nd.BaseNode)
+	case *baseFBNode:
+		flyt.WithMaxRetries(n)(nd.BaseNode)
+	case *plainRetryNode:
+		nd.n = n
+	case *plainRetryFBNode:
+		nd.n = n
+	case *flyt.NodeBuilder:
+		nd.WithMaxRetries(n)
+	case *embedBldNode:
+		nd.NodeBuilder.WithMaxRetries(n)
+	case *embedBldFBNode:
+		nd.NodeBuilder.WithMaxRetries(n)
+	case *embedCustomFBNode:
+		flyt.WithMaxRetries(n)(nd.CustomNode.BaseNode)
+	case *embedFlowNode:
+		flyt.WithMaxRetries(n)(nd.Flow.BaseNode)
+	}
 }
 
 func (c *core) exec(ctx context.Context, prepRes any) (any, error) {
@@ -901,6 +929,15 @@ func (x *Exec) build(id int) flyt.Node {
 	spec := &x.Sc.Nodes[id]
 	c := &core{x: x, id: id, spec: spec}
 	x.cores[id] = c
+	if spec.PrepSetsN {
+		// built with ANOTHER budget; the node's own prep sets the budget of the script (see setBudget)
+		cp := *spec
+		cp.N = spec.N + 2
+		if spec.N > 2 {
+			cp.N = 1
+		}
+		spec = &cp
+	}
 	var baseOpts []flyt.NodeOption
 	if spec.N != 1 || id%2 == 0 {
 		baseOpts = append(baseOpts, flyt.WithMaxRetries(spec.N))
